@@ -54,7 +54,8 @@ def Scan.step (st : Scan) (c : Char) : Scan :=
 def supportSyms (s : String) : List String :=
   ((s.toList.foldl Scan.step {}).flush).reverse
 
-/-- `_get_block_basic_vars(modified, live_in, live_out)` (`nonlocals` = those of the enclosing function). -/
+/-- `_get_block_basic_vars(modified, live_in, live_out)` (`nonlocals` = `fn_scope.nonlocals | fn_scope.globals` of the
+enclosing function: declared globals are kept as block variables just like nonlocals). -/
 def basicVars (modified liveIn liveOut nonlocals : List String) : List String :=
   modified.filter fun s => !isComposite s && (liveIn.contains s || liveOut.contains s || nonlocals.contains s)
 
@@ -91,7 +92,7 @@ structure Result where
 /-- `_get_block_vars(node, modified)` with the annotations of `node` and the function scope passed in. -/
 def blockVars (modified liveIn liveOut definedIn globals nonlocals : List String) : Result :=
   let modified := dedup modified
-  let basic := basicVars modified liveIn liveOut nonlocals
+  let basic := basicVars modified liveIn liveOut (nonlocals ++ globals)
   let comp := compositeVars modified liveIn
   let undefined := modified.filter fun v =>
     !definedIn.contains v && !globals.contains v && !nonlocals.contains v && !isComposite v
